@@ -25,6 +25,7 @@ type SimNet struct {
 	Down       map[[2]int]bool
 	NoCoalesce bool // schedule classes A / A': a sender never holds two payloads in one bucket (the bucket is put on the wire first)
 	Unicasts   map[[2]int]int
+	Failed     map[[2]int]int // unicast frames refused because there was no route (source, destination)
 	// Observe is called for every state payload handed to a receiver (decoded by the harness).
 	Observe  func(from, to int, kind string, st *event.State)
 	PanicMsg string
@@ -40,7 +41,7 @@ type SimNode struct {
 
 // NewSimNet wires the brokers (their swarm's gossip interface is replaced through the verif hook).
 func NewSimNet(brokers []*Broker, line bool) *SimNet {
-	n := &SimNet{Adj: map[int][]int{}, senders: map[[2]int]*GSender{}, wires: map[[2]int][]WireMsg{}, Down: map[[2]int]bool{}, Unicasts: map[[2]int]int{}}
+	n := &SimNet{Adj: map[int][]int{}, senders: map[[2]int]*GSender{}, wires: map[[2]int][]WireMsg{}, Down: map[[2]int]bool{}, Unicasts: map[[2]int]int{}, Failed: map[[2]int]int{}}
 	for i, b := range brokers {
 		node := &SimNode{B: b, Name: b.S.VerifSwarm().VerifName(), Idx: i, net: n}
 		n.Nodes = append(n.Nodes, node)
@@ -195,6 +196,7 @@ func (x *SimNode) GossipUnicast(dst mesh.PeerName, msg []byte) error {
 		hop = x.net.unicastHop(x.Idx, d)
 	}
 	if hop < 0 {
+		x.net.Failed[[2]int{x.Idx, d}]++
 		return fmt.Errorf("unknown relay destination: %s", dst)
 	}
 	x.net.Unicasts[[2]int{x.Idx, d}]++
@@ -342,6 +344,13 @@ func (n *SimNet) Reachable(a, b int) bool {
 	defer n.mu.Unlock()
 	_, ok := n.bfs(a)[b]
 	return ok
+}
+
+// FailedCount returns how many frames of node a for node b were refused for want of a route.
+func (n *SimNet) FailedCount(a, b int) int {
+	n.mu.Lock()
+	defer n.mu.Unlock()
+	return n.Failed[[2]int{a, b}]
 }
 
 // LinkDown tells whether the link between a and b is down.
